@@ -106,7 +106,7 @@ func diffDirs(before, after dirState, withMtime bool) string {
 		case a.IsDir != b.IsDir:
 			out = append(out, fmt.Sprintf("kind changed %q", p))
 		case a.Data != b.Data:
-			out = append(out, fmt.Sprintf("content changed %q: %q -> %q", p, clip(b.Data), clip(a.Data)))
+			out = append(out, fmt.Sprintf("content changed %q: %q -> %q", p, vhClip(b.Data), vhClip(a.Data)))
 		case withMtime && !a.IsDir && !a.Mtime.Equal(b.Mtime):
 			out = append(out, fmt.Sprintf("written (mtime moved) %q", p))
 		}
@@ -120,7 +120,7 @@ func diffDirs(before, after dirState, withMtime bool) string {
 	return strings.Join(out, "; ")
 }
 
-func clip(s string) string {
+func vhClip(s string) string {
 	if len(s) > 300 {
 		return s[:150] + "…" + s[len(s)-150:]
 	}
@@ -289,7 +289,7 @@ type prop[C any] struct {
 	fresh int
 }
 
-func mustJSON(v any) []byte {
+func vhMustJSON(v any) []byte {
 	b, err := json.Marshal(v)
 	if err != nil {
 		panic(err)
@@ -395,13 +395,13 @@ func (p prop[C]) run(t *testing.T) {
 	spawned := 0
 	rapid.Check(t, func(rt *rapid.T) {
 		c := p.gen(rt)
-		cj := mustJSON(c)
+		cj := vhMustJSON(c)
 		cls, nt := p.classifySafe(c)
 		col.record(cj, cls, nt)
 		if err := safeCheck(p.check, c); err != nil {
 			col.freeze()
 			writeReplay(p.property, test, p.knownOf(c, err), cj, err)
-			rt.Fatalf("%s: %v\ncase: %s", p.property, err, clip(string(cj)))
+			rt.Fatalf("%s: %v\ncase: %s", p.property, err, vhClip(string(cj)))
 		}
 		if fresh > 0 && spawned < maxFreshChildren && freshDue(cj, fresh) {
 			spawned++
@@ -410,7 +410,7 @@ func (p prop[C]) run(t *testing.T) {
 				err = fmt.Errorf("in a fresh process, where nothing ran before this case (the same case passes after other cases ran in the process): %w", err)
 				col.freeze()
 				writeReplay(p.property, test, p.knownOf(c, err), cj, err)
-				rt.Fatalf("%s: %v\ncase: %s", p.property, err, clip(string(cj)))
+				rt.Fatalf("%s: %v\ncase: %s", p.property, err, vhClip(string(cj)))
 			}
 		}
 	})
@@ -461,7 +461,7 @@ func freshProcessCheck(property, test string, cj []byte) error {
 	if _, ok := runErr.(*exec.ExitError); !ok {
 		return nil // could not be started
 	}
-	return fmt.Errorf("the child process failed without a verdict: %v: %s", runErr, clip(string(out)))
+	return fmt.Errorf("the child process failed without a verdict: %v: %s", runErr, vhClip(string(out)))
 }
 
 func (p prop[C]) classifySafe(c C) ([]string, bool) {
@@ -491,7 +491,7 @@ func (p prop[C]) enumerate(t *testing.T, cases func(yield func(C) bool)) {
 	col.Exhaustive = true
 	spawned := 0
 	cases(func(c C) bool {
-		cj := mustJSON(c)
+		cj := vhMustJSON(c)
 		cls, nt := p.classifySafe(c)
 		col.record(cj, cls, nt)
 		col.Requested++
@@ -499,7 +499,7 @@ func (p prop[C]) enumerate(t *testing.T, cases func(yield func(C) bool)) {
 			col.freeze()
 			col.Exhaustive = false
 			writeReplay(p.property, test, p.knownOf(c, err), cj, err)
-			t.Errorf("%s: %v\ncase: %s", p.property, err, clip(string(cj)))
+			t.Errorf("%s: %v\ncase: %s", p.property, err, vhClip(string(cj)))
 			return false
 		}
 		if p.fresh > 0 && spawned < maxFreshChildren && freshDue(cj, p.fresh) {
@@ -510,7 +510,7 @@ func (p prop[C]) enumerate(t *testing.T, cases func(yield func(C) bool)) {
 				col.freeze()
 				col.Exhaustive = false
 				writeReplay(p.property, test, p.knownOf(c, err), cj, err)
-				t.Errorf("%s: %v\ncase: %s", p.property, err, clip(string(cj)))
+				t.Errorf("%s: %v\ncase: %s", p.property, err, vhClip(string(cj)))
 				return false
 			}
 		}
@@ -518,7 +518,7 @@ func (p prop[C]) enumerate(t *testing.T, cases func(yield func(C) bool)) {
 	})
 }
 
-func getenv(k, def string) string {
+func vhGetenv(k, def string) string {
 	if v, ok := os.LookupEnv(k); ok && v != "" {
 		return v
 	}
